@@ -272,17 +272,20 @@ def run(ctx):
             part, unbuilt = [], []
     flush(part, unbuilt)
     ctx.note("edges_replayed", ntr[0])
-    # ---- code -> spec: random histories
-    n, ln = (400, 60) if ctx.quick else (4000, 300)
-    hist = []
-    for i in range(n):
-        h = random_history(ctx.rng, ctx.rng.randrange(5, ln))
-        hist.append(h)
-        ctx.count(core.digest(h["ev"][-1]), len(h["ev"]))
-    ctx.sample({"random_history_prefix": hist[0]["ev"][:3]})
-    for part in core.chunks(hist, 500):
+    # ---- code -> spec: random histories (streamed: every step carries the whole projected storage)
+    n, ln = (400, 60) if ctx.quick else (3000, 200)
+    done = 0
+    while done < n:
+        part = []
+        for _ in range(min(250, n - done)):
+            h = random_history(ctx.rng, ctx.rng.randrange(5, ln))
+            part.append(h)
+            ctx.count(core.digest(h["ev"][-1]), len(h["ev"]))
+        if done == 0:
+            ctx.sample({"random_history_prefix": part[0]["ev"][:3]})
         rej = ctx.validate_traces("Trace_Storage", "Trace_Storage.cfg", part)
         judge(ctx, part, rej, "random history")
+        done += len(part)
 
 
 def replay(ctx, rec):
